@@ -31,10 +31,14 @@ RULE = ('(a) isolated pipeline: the real LuaFormatterWriter._get_code_for_spaces
         'vm_compute on the model itself (cross-check of extraction and glue).  One evaluation = one pipeline '
         'call compared, or one holds_C10 evaluation; distinct+non-trivial = distinct runs that contain a line break or a '
         'comment + distinct (program, layout pair) observations inside the domain of holds_C10')
-PARTIAL = ('whole-writer theorems (C10_indent, C10_reindent_invariant, C10_idempotent at program level) need the '
-           'LuaASTEchoWriter walk (Model/AstWriter.v, worker parser): until then they are observed by the monitor on real '
-           'luafmt output, not proved; proved and unbounded: every run-level statement about the white-space pipeline, and the '
-           'whole-output clauses relative to an abstract chunk list (C10_*_partial)')
+PARTIAL = ('proved at program level (parser trees inside the writer domain of C09_aligned, tidy token codes): C10_shape (no trailing '
+           'white space, no double blank line in the whole luafmt output) and C10_indent_counter_partial (a code token that begins a '
+           'line is preceded by exactly indentwidth x n spaces, n >= 0 the writer nesting counter at its white-space run); NOT proved: '
+           'that n equals the number of blocks and brackets open at the token (C10_indent; observed by the monitor and by the link '
+           'observation - it is known to differ for tokens inside the else part of a one-line if and for a trailing table separator), '
+           're-indentation invariance and idempotence of whole programs (need the lexer on re-indented / written text); proved and '
+           'unbounded: every run-level statement about the white-space pipeline, the whole-output clauses relative to an abstract '
+           'chunk list (C10_*_partial)')
 ASSUMPTIONS = ['indentwidth is an integer (0-8 in the monitor domain); programs are those on which luafmt succeeds (C09 covers success)',
                'interior lines of multi-line block comments and long strings are token content, not layout: re-indentations leave them alone',
                'blank lines before the first line of the file are not "separating lines" (the output may start with up to two)']
@@ -47,19 +51,23 @@ CLAIM = dict(
           "C10_run_no_trailing_blank, C10_run_blank_lines (never three line feeds in a row), C10_run_end_of_file, "
           "C10_run_keeps_comment_text (only white space moves), C10_run_idempotent (formatting a formatted run changes "
           "nothing); and four theorems about the whole output as a list of writer chunks (C10_indent_partial, C10_first_line_partial, "
-          "C10_shape_partial, C10_reindent_partial) that reduce the whole-program clauses to facts about the writer walk, and two about "
+          "C10_shape_partial, C10_reindent_partial) that reduce the whole-program clauses to facts about the writer walk, two about "
           "the model of the walk itself (Model/AstWriter.v): the nesting counter is balanced and never negative "
-          "(C10_walk_indent_balanced, C10_writer_indent_nonneg). Regex sources, guards, replacement expressions, order, and the whole function text "
+          "(C10_walk_indent_balanced, C10_writer_indent_nonneg), and two whole-program theorems for trees built by the parser model "
+          "inside the writer domain of C09_aligned with tidy token codes: C10_shape (the whole luafmt output has no line ending in a "
+          "blank and never three line feeds in a row) and C10_indent_counter_partial (every code token that begins a line is preceded "
+          "by exactly indentwidth x n spaces, n >= 0 the nesting counter at its white-space run), obtained by discharging the "
+          "hypotheses separated / codes_ok / no_end of the chunk theorems from the alignment proof (Proofs/AstWriterLines.v). Regex sources, guards, replacement expressions, order, and the whole function text "
           "are regenerated from lua.py on every run and pinned. Tie: the extracted model equals the real method on ALL runs of length "
           "<= 5 (thorough 6) over {space,tab,\\n,\\r,-,/,a} x 4 positions x 3 (width,depth), on random long runs, and on every "
           "_get_code_for_spaces call made inside real luafmt runs on generated programs; the extracted holds_C10 (reference reader "
           "Spec/FmtShape.v: lines, code tokens, block/bracket depth) is evaluated on real luafmt output for program x re-indentations x "
           "widths 0-8: outputs equal, fmt(fmt)=fmt, indentation = width x depth on every code line, no trailing white space, no "
           "double blank line, no blank line at the end."),
-    note=("PARTIAL: the whole-program clauses (indentation = width x syntactic depth, re-indentation invariance and idempotence "
-          "of whole programs) are OBSERVED by the extracted monitor on real output, not proved: they need the model of the "
-          "LuaASTEchoWriter walk (worker parser): that luafmt's output is a separated chunk list whose indents equal the syntactic "
-          "depth; given that, C10_indent_partial / C10_shape_partial / C10_reindent_partial give the clauses. Three genuine "
+    note=("PARTIAL: the clauses indentation = width x syntactic depth, re-indentation invariance and idempotence of whole programs "
+          "are OBSERVED by the extracted monitor on real output, not proved: the first needs the link nesting counter = blocks and "
+          "brackets open at the token (true except inside the else part of a one-line if and at a trailing table separator), the other "
+          "two need the lexer on re-indented / written text. Three genuine "
           "defects found by this check were fixed in picotool (fix: commits, findings/known_C10.json): white-space-only line / "
           "non-idempotence after an empty line inside a block; `//` comment lines kept their input indentation; a file without final "
           "newline got one only if blanks followed its last token. Trusted: Coq "
